@@ -66,6 +66,9 @@ fn real_main() -> i32 {
         "C06" => run_engine(&engines::market::engines::C06, &opts),
         "C07" => run_engine(&engines::market::engines::C07, &opts),
         "C08" => run_engine(&engines::market::engines::C08, &opts),
+        "C18" => run_engine(&engines::c18_evm_total::C18, &opts),
+        "C20" => run_engine(&engines::c20_identity::C20, &opts),
+        "C19" => run_engine(&engines::evmsys::C19, &opts),
         "C17" => run_engine(&engines::c17_evm_diff::C17, &opts),
         "C16" => run_engine(&engines::c16_paych::C16, &opts),
         _ => {
